@@ -73,8 +73,15 @@ func (h *holder) block(f func()) {
 			// If we are still blocked, re-acquire. Otherwise, we just got got released
 			// (and that release used our token we gave up), and should no longer try to
 			// re-acquire.
-			if atomic.CompareAndSwapInt64(&h.status, blocked, acquired) {
-				h.l.ch <- struct{}{}
+			if atomic.LoadInt64(&h.status) != blocked {
+				return
+			}
+			// Take the token before announcing that we hold it: a release that arrives
+			// while we wait for a free slot must not give away somebody else's token.
+			h.l.ch <- struct{}{}
+			if !atomic.CompareAndSwapInt64(&h.status, blocked, acquired) {
+				// Released while we were waiting: hand the token back.
+				<-h.l.ch
 			}
 		}()
 	}
